@@ -3,6 +3,7 @@ package zygo
 import (
 	"fmt"
 	"reflect"
+	"sort"
 	"time"
 )
 
@@ -397,12 +398,18 @@ func TypeListFunction(env *Zlisp, name string, args []Sexp) (Sexp, error) {
 }
 
 func (env *Zlisp) ImportBaseTypes() {
-	for _, e := range GoStructRegistry.Builtin {
-		env.AddGlobal(e.RegisteredName, e)
-	}
-
-	for _, e := range GoStructRegistry.Userdef {
-		env.AddGlobal(e.RegisteredName, e)
+	// define the names in sorted order, so that the symbol numbers
+	// they get do not depend on Go's random map iteration order.
+	for _, m := range []map[string]*RegisteredType{GoStructRegistry.Builtin, GoStructRegistry.Userdef} {
+		keys := make([]string, 0, len(m))
+		for k := range m {
+			keys = append(keys, k)
+		}
+		sort.Strings(keys)
+		for _, k := range keys {
+			e := m[k]
+			env.AddGlobal(e.RegisteredName, e)
+		}
 	}
 }
 
